@@ -131,6 +131,12 @@ CHECKS = {
             "all recoveries terminate, outputs equal the failure-free run, every job runs at most 1 + own failures + losses.",
             "n <= 3 (quick) / 6 (thorough); the data is lost once (copies regenerated by a running recovery are not deleted "
             "again; that harsher scenario is in C16's 'lose' variants).", "3/C19"),
+    "C08": ("exploration", "E3", E3 + "; every concrete Step class found by reflection, constructor-parameter variations, token grammar",
+            "Every concrete Step subclass of streamflow.* (signature-driven factory, base + one variation per parameter, full CWLCommand "
+            "and output processors on ExecuteStep) and a token-value grammar to depth 2-3: save, load with a fresh loading context, "
+            "compare ALL attributes in a generic canonical form; stored row == re-saved parameters; WorkflowBuilder deep copy equal "
+            "with no persistent id; two loads independent under deep mutation; whole catalogue workflows loaded, copied, re-saved.",
+            "bool/int equality as in Python (SQLite stores flags as integers); back-references and runtime queues not compared.", "3/C08"),
 }
 
 NOT_YET = "check not built yet in this session (planned, see DESIGN.md section 3); no claim is made"
